@@ -85,6 +85,8 @@ func c02Concrete(kind string, c c02Content) map[string]any {
 	case "callbacks":
 		o = map[string]any{"{$request.body#/u}": map[string]any{"post": map[string]any{
 			"responses": map[string]any{"200": map[string]any{"description": "d"}}}}}
+	case "pathItems":
+		o = map[string]any{"get": map[string]any{"responses": map[string]any{"200": map[string]any{"description": "d"}}}}
 	default:
 		panic("harness: c02 kind " + kind)
 	}
@@ -134,6 +136,12 @@ func c02Concrete(kind string, c c02Content) map[string]any {
 			o["content"] = map[string]any{"application/json": map[string]any{"schema": map[string]any{"type": "object"}, "examples": map[string]any{"e": r}}}
 		case "responses:links":
 			o["links"] = map[string]any{"L": r}
+		case "pathItems:parameters":
+			o["parameters"] = []any{r}
+		case "pathItems:post.requestBody":
+			o["post"] = map[string]any{"requestBody": r, "responses": map[string]any{"200": map[string]any{"description": "d"}}}
+		case "pathItems:post.responses":
+			o["post"] = map[string]any{"responses": map[string]any{"200": r}}
 		case "callbacks:post.requestBody":
 			o["{$request.body#/u}"].(map[string]any)["post"].(map[string]any)["requestBody"] = r
 		case "callbacks:post.responses":
@@ -179,6 +187,8 @@ func c02UseInOp(kind, ref string) map[string]any {
 		op["responses"] = map[string]any{"200": map[string]any{"description": "d", "links": map[string]any{"L": r}}}
 	case "callbacks":
 		op["callbacks"] = map[string]any{"C": r}
+	case "pathItems":
+		return map[string]any{"/u": r}
 	}
 	return map[string]any{"/u": map[string]any{method: op}}
 }
@@ -188,6 +198,7 @@ func c02WriteUniverse(dir string, tc *c02Case) (string, []byte) {
 	type fileDoc struct {
 		whole map[string]any
 		comps map[string]map[string]any
+		paths map[string]any
 	}
 	files := map[string]*fileDoc{}
 	get := func(f string) *fileDoc {
@@ -203,6 +214,13 @@ func c02WriteUniverse(dir string, tc *c02Case) (string, []byte) {
 			fd.whole = c02Content2JSON(s.Kind, s.C)
 			continue
 		}
+		if s.Kind == "pathItems" {
+			if fd.paths == nil {
+				fd.paths = map[string]any{}
+			}
+			fd.paths["/"+s.Name] = c02Content2JSON(s.Kind, s.C)
+			continue
+		}
 		if fd.comps[s.Kind] == nil {
 			fd.comps[s.Kind] = map[string]any{}
 		}
@@ -215,6 +233,9 @@ func c02WriteUniverse(dir string, tc *c02Case) (string, []byte) {
 			doc = fd.whole
 		} else {
 			d := map[string]any{"openapi": "3.0.3", "info": map[string]any{"title": f, "version": "1"}, "paths": map[string]any{}}
+			if fd.paths != nil {
+				d["paths"] = fd.paths
+			}
 			comps := map[string]any{}
 			for k, m := range fd.comps {
 				comps[k] = m
@@ -397,6 +418,20 @@ func walkRefs(v reflect.Value, owner, path string, seen map[uintptr]bool, out *[
 				walkRefs(val, o, "", seen, out, depth+1)
 			}
 			return
+		}
+		if t.Name() == "PathItem" && t.PkgPath() == "github.com/getkin/kin-openapi/openapi3" {
+			// a path item is not wrapped in a Ref type: the $ref is a field next to the resolved content
+			ref := v.FieldByName("Ref").String()
+			id := xidOf(v)
+			if ref != "" {
+				got := id
+				if got == "" {
+					got = "nil"
+				}
+				*out = append(*out, c02Site{Owner: owner, Path: path, Ref: ref, Kind: "pathItems", Got: got})
+			} else if walkInline && id != "" {
+				*out = append(*out, c02Site{Owner: owner, Path: path, Ref: "", Kind: "pathItems", Got: id})
+			}
 		}
 		o := owner
 		if id := xidOf(v); id != "" && t.Name() != "T" {
